@@ -938,12 +938,14 @@ def run_ext(m, var, acc):
 # driver
 # ======================================================================================
 # ======================================================================================
-# [chain] two editing operations in place on ONE indexed TableCollection
+# [chain] two (with a leading trim: three) editing operations in place on ONE indexed TableCollection
 # ======================================================================================
 def run_chain(m, var, acc):
     """op1 ; op2 applied in place to the tables of a tree sequence (which carry its index) must give what
     op2 gives on a rebuilt, index-free copy of op1's result, and load exactly when that does: nothing an
-    earlier operation leaves behind (a stale index, cached state) may leak into the next."""
+    earlier operation leaves behind (a stale index, cached state) may leak into the next.  Variants with
+    pre=1 also run every (ltrim | rtrim | trim) ; op1 ; op2 on the one object (depth 3): what a trim
+    remembered about the collection must not outlive the edit that follows it.  op2 includes trim."""
     mode, q = var["mode"], var["q"]
     base_case = {"fam": "chain", "member": m.desc(), "var": var}
     acc.enter(base_case)
@@ -968,6 +970,7 @@ def run_chain(m, var, acc):
             yield ("delete_older", t_), lambda t, t_=t_: t.delete_older(t_)
         yield ("ltrim",), lambda t: t.ltrim(record_provenance=False)
         yield ("rtrim",), lambda t: t.rtrim(record_provenance=False)
+        yield ("trim",), lambda t: t.trim(record_provenance=False)
         yield ("sort",), lambda t: t.sort()
         yield ("delete_sites", [0]), lambda t: t.delete_sites([0], record_provenance=False) if t.sites.num_rows else None
 
@@ -978,12 +981,29 @@ def run_chain(m, var, acc):
         except Exception as e:  # noqa
             return False, e
 
-    for d1, f1 in first_ops():
+    def zeroth_ops():
+        # depth 3: a trim BEFORE the pair, on the same object (anything a trim remembers about the
+        # collection - an extent, a length - must not outlive the edit that follows it)
+        yield None, None
+        if not var.get("pre"):
+            return
+        yield ("ltrim",), lambda t: t.ltrim(record_provenance=False)
+        yield ("rtrim",), lambda t: t.rtrim(record_provenance=False)
+        yield ("trim",), lambda t: t.trim(record_provenance=False)
+
+    for (d0, f0), (d1, f1) in itertools.product(zeroth_ops(), first_ops()):
         mid = base.copy()
         try:
+            if f0 is not None:
+                f0(mid)
             f1(mid)
         except Exception:  # noqa: judged by the single-operation families
             continue
+        if f0 is not None:
+            def f1(t, f0=f0, g=f1):  # noqa: the pair (trim ; edit) as one in-place prefix
+                f0(t)
+                g(t)
+            d1 = (list(d0), list(d1))
         for d2, f2 in second_ops():
             case = dict(base_case, op=[list(d1), list(d2)])
             # (a) really is one object through both steps: copy() would shed whatever op1 left behind
@@ -1069,9 +1089,9 @@ def plan(tier):
         add("iv", dict(N=2, G=3, times="id", flags=AS, grid="ulp"), [V("known", 0, 1)], 2)
         add("iv", dict(N=3, G=3, times="id", flags=AS, grid="ulp"), [V("unknown", 0, 0, combos=TWO_COMBOS)], 6)
         # ---- chain ----
-        add("chain", dict(N=3, G=2, times="id", flags=AS), [V("unknown", 0)], 12)
+        add("chain", dict(N=3, G=2, times="id", flags=AS), [V("unknown", 0, pre=1)], 12)
         add("chain", dict(N=4, G=2, times="id", flags=AS), [V("known", 1)], 40)
-        add("chain", dict(fixed=True), [V("unknown", 0), V("known", 1)], 1)
+        add("chain", dict(fixed=True), [V("unknown", 0, pre=1), V("known", 1, pre=1)], 1)
         # ---- ivs ----
         for n in (1, 2, 3):
             add("ivs", dict(N=n, G=2, times="id"), [V("known", 1)], 12)
@@ -1108,9 +1128,9 @@ def plan(tier):
         add("ext", dict(N=4, G=3, times="id", flags=LV), [V("known", 0)], 300)
         add("ext", dict(N=3, G=3, times="weak"), [V("known", 1)], 300)
     else:
-        add("chain", dict(N=3, G=2, times="id", flags=AS), [V("unknown", 0), V("known", 1)], 12)
-        add("chain", dict(N=4, G=2, times="id", flags=AS), [V("known", 1)], 40)
-        add("chain", dict(fixed=True), [V("unknown", 0), V("known", 1)], 1)
+        add("chain", dict(N=3, G=2, times="id", flags=AS), [V("unknown", 0, pre=1), V("known", 1, pre=1)], 12)
+        add("chain", dict(N=4, G=2, times="id", flags=AS), [V("known", 1, pre=1)], 40)
+        add("chain", dict(fixed=True), [V("unknown", 0, pre=1), V("known", 1, pre=1)], 1)
         # ---- iv ----
         for n in (0, 1, 2, 3):
             for g in (1, 2, 3):
